@@ -5,3 +5,6 @@ import MimicProps.C17
 #print axioms MimicProps.C17.no_attrs_without_capability
 #print axioms MimicProps.C17.attrs_roundtrip_execute
 #print axioms MimicProps.C17.sql_independent_of_attrs
+#print axioms MimicProps.C17.parse_com_query_is_code
+#print axioms MimicProps.C17.code_attrs_roundtrip_query
+#print axioms MimicProps.C17.code_no_attrs_without_capability
